@@ -70,7 +70,7 @@ impl World {
         let log = Log::default();
         let link = SharedLink::new([case.cap[0].map(|c| c.max(1) as usize), case.cap[1].map(|c| c.max(1) as usize)]);
         let parking = Parking::default();
-        let keep = Keeper::default();
+        let keep = Keeper(Default::default(), Rc::new(case.bridges.clone()));
         let mut exec = Exec::default();
         let sp = exec.spawner.clone();
         let mut muxes: [Option<Rc<Mux>>; 2] = [None, None];
